@@ -443,4 +443,88 @@ theorem function_entries_are_call_targets (nodes : List Node) (p : Option (List 
       exact he _ this hfe
   · exact absurd h (by simp)
 
+/-! ### …and every node that carries a called label is a function entry -/
+
+def CalledEntries (calls : List (W String)) (a : Array CNode) : Prop :=
+  ∀ c ∈ a.toList, c.labels.any (fun l => nameIn calls l.val) = true → c.node.isFunctionEntry = true
+
+theorem calledEntries_push (calls : List (W String)) (a : Array CNode) (c : CNode) (h : CalledEntries calls a)
+    (hc : c.labels.any (fun l => nameIn calls l.val) = true → c.node.isFunctionEntry = true) :
+    CalledEntries calls (a.push c) := by
+  intro x hx
+  simp only [Array.toList_push, List.mem_append, List.mem_singleton] at hx
+  rcases hx with hx | hx
+  · exact h x hx
+  · subst hx; exact hc
+
+theorem buildStep_called (calls : List (W String)) (p : Option (List (W String))) (st st' : BuildSt) (n : Node)
+    (h : CalledEntries calls st.out) (hs : buildStep calls p st n = .ok st') : CalledEntries calls st'.out := by
+  cases n with
+  | label w t =>
+    simp only [buildStep] at hs
+    split at hs
+    · exact absurd hs (by simp)
+    · injection hs with hs; subst hs; exact h
+  | directive w d t =>
+    cases d <;> simp only [buildStep] at hs <;> (injection hs with hs; subst hs; exact h)
+  | _ =>
+    simp only [buildStep] at hs
+    split at hs <;> (injection hs with hs; subst hs)
+    · apply calledEntries_push
+      · apply calledEntries_push _ _ _ h
+        intro _; rfl
+      · intro hc; simp at hc
+    · rename_i hnot
+      apply calledEntries_push _ _ _ h
+      intro hc
+      exact absurd hc hnot
+
+theorem buildLoop_called (calls : List (W String)) (p : Option (List (W String))) (nodes : List Node) :
+    ∀ (st st' : BuildSt), CalledEntries calls st.out → buildLoop calls p nodes st = .ok st' →
+      CalledEntries calls st'.out := by
+  induction nodes with
+  | nil => intro st st' h hs; simp only [buildLoop] at hs; injection hs with hs; subst hs; exact h
+  | cons n rest ih =>
+    intro st st' h hs
+    simp only [buildLoop] at hs
+    cases h1 : buildStep calls p st n with
+    | error e => rw [h1] at hs; simp at hs
+    | ok st1 =>
+      rw [h1] at hs
+      exact ih st1 st' (buildStep_called calls p st st1 n h h1) hs
+
+/-- **C11 (`called_labels_are_entries`).** In the graph built from parsed source, every node that
+    carries a label named by a call (or by the handler registration) is a function entry. -/
+theorem called_labels_are_entries (nodes : List Node) (p : Option (List (W String))) (g : Cfg)
+    (h : buildCfg nodes p = .ok g) :
+    ∀ i, i < g.nodes.size → (g.get i).labels.any (fun l => nameIn (allCallNames nodes p) l.val) = true →
+      (g.get i).node.isFunctionEntry = true := by
+  unfold buildCfg at h
+  split at h
+  · unfold buildNodes at h
+    cases hb : buildLoop (allCallNames nodes p) p nodes {} with
+    | error e => rw [hb] at h; simp at h
+    | ok st =>
+      rw [hb] at h
+      simp only [] at h
+      injection h with h
+      subst h
+      have he := buildLoop_called _ p nodes {} st (by intro c hc; simp at hc) hb
+      intro i hi hl
+      have : (Cfg.get { nodes := st.out } i) ∈ st.out.toList := by
+        simp only [Cfg.get]
+        have hi' : i < st.out.size := hi
+        simp [hi']
+      exact he _ this hl
+  · exact absurd h (by simp)
+
+/-- **C11 (`entry_iff_called`).** A node of the constructed graph is a function entry exactly when
+    it carries a label that some call (or the handler registration) names. -/
+theorem entry_iff_called (nodes : List Node) (p : Option (List (W String))) (g : Cfg)
+    (hsrc : ∀ n ∈ nodes, n.isFunctionEntry = false) (h : buildCfg nodes p = .ok g) (i : Nat)
+    (hi : i < g.nodes.size) :
+    (g.get i).node.isFunctionEntry = true ↔
+      (g.get i).labels.any (fun l => nameIn (allCallNames nodes p) l.val) = true :=
+  ⟨function_entries_are_call_targets nodes p g hsrc h i hi, called_labels_are_entries nodes p g h i hi⟩
+
 end Rva
